@@ -1518,6 +1518,61 @@ pub fn c06(ctx: &Ctx) -> Report {
     }
     kf_e5_name(&mut rep, &mut rng, &mut model);
     kf_lookup_past_end(&mut rep, &mut rng);
+    // the name of a volume-label entry in the root (a slot with attribute 0x08 is an entry like any other for lookup,
+    // create, mkdir and delete: what a listing shows must be what a lookup finds)
+    {
+        let mut r2 = Rng::new(ctx.seed ^ 0xC06_1ABE1);
+        let mut done = 0;
+        for k in 0..40 {
+            if done >= budget(ctx, 3, 12) {
+                break;
+            }
+            let sc = make_scenario(&mut r2, &ScOpts { fat32: Some(k % 2 == 0), big_tree: k % 3 != 0, limits: Some((4, 4, 1)), ..Default::default() });
+            // the label entry as the crate's own listing shows it
+            let label: [u8; 11] = {
+                let mut probe = Session::new(sc.blocks.clone(), sc.limits, sc.id_offset);
+                probe.exec(&Op::OpenVolume(sc.vols[0].slot));
+                probe.exec(&Op::OpenRoot(sc.id_offset));
+                let lo = probe.exec(&Op::List(sc.id_offset.wrapping_add(1)));
+                let found = lo.res.strip_prefix("ok l ").unwrap_or("").split(';').filter(|e| !e.is_empty()).find(|e| e.split(':').nth(1).and_then(|a| a.parse::<u8>().ok()).map(|a| a & 0x08 != 0 && a & 0x0F != 0x0F).unwrap_or(false)).map(|e| e.split(':').next().unwrap_or("").to_string());
+                match found.map(|h| unhex(&h)) {
+                    Some(b) if b.len() == 11 => { let mut n = [0u8; 11]; n.copy_from_slice(&b); n }
+                    _ => continue,
+                }
+            };
+            done += 1;
+            let base: String = label[..8].iter().filter(|b| **b != b' ').map(|b| *b as char).collect();
+            let ext: String = label[8..].iter().filter(|b| **b != b' ').map(|b| *b as char).collect();
+            if label[..8].iter().skip_while(|b| **b != b' ').any(|b| *b != b' ') {
+                // a space inside the base name cannot be written as an 8.3 string
+                continue;
+            }
+            let name = if ext.is_empty() { base } else { format!("{base}.{ext}") };
+            let (v, d) = (sc.id_offset, sc.id_offset.wrapping_add(1));
+            let script = vec![Op::OpenVolume(sc.vols[0].slot), Op::OpenRoot(v), Op::List(d), Op::Find(d, name.clone()), Op::OpenDir(d, name.clone()), Op::OpenFile(d, name.clone(), Mode::ReadWriteCreate),
+                Op::Mkdir(d, name.clone()), Op::OpenFile(d, name.clone(), Mode::ReadWriteCreateOrAppend), Op::List(d), Op::Find(d, name.to_lowercase()), Op::Delete(d, name.clone()), Op::List(d), Op::Find(d, name.clone()), Op::Label(v)];
+            let mut cfg = RunCfg::base(script.len(), Profile::namespace());
+            cfg.script = Some(script);
+            cfg.fsck_every_op = true;
+            rep.count("scripted:label-entry-name");
+            let res = run_case(&mut r2, &sc, &cfg, &mut model, &mut rep, &format!("c06/{}/label{k}", ctx.seed));
+            // model-independent: the name is in the listing (that is where it was taken from), so the lookup finds it,
+            // a create / mkdir of it is refused, and the listing never shows it twice
+            rep.oracle_checks += 3;
+            let hexname = hex(&label);
+            let count_in = |o: &Outcome| o.res.strip_prefix("ok l ").unwrap_or("").split(';').filter(|e| e.split(':').next() == Some(hexname.as_str())).count();
+            if res.outcomes.len() >= 9 {
+                if !res.outcomes[3].res.starts_with("ok e") {
+                    rep.violation("impl-vs-spec", "listed-name-not-found", &format!("the root listing shows the entry {} (attribute 0x08) but `find {}` answered `{}`", hexname, name, truncate(&res.outcomes[3].res, 60)),
+                        J::obj(vec![("case", J::s(format!("c06/{}/label{k}", ctx.seed))), ("scenario", J::s(sc.desc.clone())), ("ops", J::Arr(res.ops.iter().zip(res.outcomes.iter()).map(|(o, r)| J::s(format!("{}  =>  {}", o.show(), truncate(&r.res, 120)))).collect()))]));
+                }
+                if res.outcomes[5].is_ok() || res.outcomes[6].is_ok() || count_in(&res.outcomes[8]) > 1 {
+                    rep.violation("impl-vs-spec", "duplicate-of-listed-name", &format!("the root listing shows the entry {} but create / mkdir of that name answered `{}` / `{}`; the listing afterwards shows it {} times", hexname, truncate(&res.outcomes[5].res, 40), truncate(&res.outcomes[6].res, 40), count_in(&res.outcomes[8])),
+                        J::obj(vec![("case", J::s(format!("c06/{}/label{k}", ctx.seed))), ("scenario", J::s(sc.desc.clone())), ("ops", J::Arr(res.ops.iter().zip(res.outcomes.iter()).map(|(o, r)| J::s(format!("{}  =>  {}", o.show(), truncate(&r.res, 120)))).collect()))]));
+                }
+            }
+        }
+    }
     finish(rep, &model, "directories built by the independent formatter (live / deleted / long-name / label slots, 1-3 clusters with fragmented chains, FAT16 roots of 16..512 entries, FAT32 roots at clusters 2,5,9) before and after histories of create/delete/mkdir; every listing (with and without long names), lookup and open_dir result is compared with the Lean model, and the independent Lean reader's view of the medium with the reference tree; distinct = histories")
 }
 
